@@ -85,6 +85,20 @@ def cases(tier, seed):
         for dec in ("sampling", "greedy"):
             for r in range(3 if q else 10):
                 out.append(dict(kind="ffsp_multistage", extra=extra, B=rnd.choice([1, 4, 6]), decode=dec, s=rnd.randrange(10**6), wseed=r))
+    # beam search as a decoding mode (per-step log-probs, their sum and the entropy of the returned beams), and the EAS
+    # rollouts (sampled rows + one row forced along the incumbent) built from the same helpers
+    for kind, env in (("am", "tsp"), ("am", "cvrp"), ("am", "sdvrp"), ("am", "pctsp"), ("nar", "tsp")):
+        for n in ((6, 9) if q else (5, 6, 10, 20)):
+            for W in (2, 3, 5):
+                for B in ((1, 3) if q else (1, 2, 5)):
+                    for sbb in (False, True):
+                        out.append(dict(kind="beam", policy=kind, env=env, n=n, B=B, W=W, select_best=sbb, s=rnd.randrange(10**6), wseed=rnd.randrange(4)))
+    for env in ("tsp",):  # forward_eas takes its forced starts modulo num_starts, which only names feasible nodes on TSP-like envs (DESIGN 11g)
+        for n in ((6, 10) if q else (5, 6, 10, 20)):
+            for B in ((1, 4) if q else (1, 2, 4, 7)):
+                for it in (0, 1, 3):
+                    for r in range(2 if q else 5):
+                        out.append(dict(kind="eas", env=env, n=n, B=B, iter=it, s=rnd.randrange(10**6), wseed=r))
     for B in (1, 3, 6):
         for r in range(3 if q else 10):
             out.append(dict(kind="flagged", B=B, T=rnd.choice([4, 9]), N=rnd.choice([3, 7]), n=rnd.choice([6, 9]), s=rnd.randrange(10**6)))
@@ -94,7 +108,7 @@ def cases(tier, seed):
 def run_case(ctx, case):
     from vlib import c11impl
 
-    {"stepwise": c11impl.stepwise_case, "flagged": c11impl.flagged_case, "select_best": c11impl.select_best_case, "ffsp_multistage": c11impl.ffsp_multistage_case}.get(case.get("kind"), c11impl.case)(ctx, case)
+    {"stepwise": c11impl.stepwise_case, "flagged": c11impl.flagged_case, "select_best": c11impl.select_best_case, "ffsp_multistage": c11impl.ffsp_multistage_case, "beam": c11impl.beam_case, "eas": c11impl.eas_case}.get(case.get("kind"), c11impl.case)(ctx, case)
 
 
 MANIFEST = {
